@@ -6,6 +6,6 @@ R=$1; P=$2; cd "$(dirname "$0")/.."; W=/tmp/wt/r$R-$P
 for o in $W/out/m*; do [ -f $o/patch.diff ] || continue; m=$(basename $o); d=seeded/$P-r$R$m; mkdir -p $d; cp $o/patch.diff $o/demo.cpp $o/NOTES.md $d/ 2>/dev/null
   echo "{\"property\":\"$P\",\"origin\":\"independent sub-agent (round $R) given only the property text (statement, quantifier, code anchors) and a scratch worktree\",\"round\":$R}" > $d/meta.json; done
 git -C /repo worktree remove --force $W >/dev/null 2>&1; rm -rf $W
-exec 9>/tmp/import_seeded.lock; flock 9
+exec 9>/tmp/import_seeded.lock.$(( 10#${P#C} % 3 )); flock 9   # three lanes
 for d in seeded/$P-r${R}m*; do c=$(tools/confirm_mutation.sh $d | tail -1); tools/seeded_eval.sh $d >/dev/null 2>&1
   echo "$(basename $d) $c | violations=$(grep -c '^VIOLATION' $d/detect.txt) $(grep '^exit=' $d/detect.txt | tail -1) | $(grep -m1 '^violation' $d/detect.txt | sed 's/ detail=.*//' | cut -c1-160)"; done
